@@ -909,7 +909,7 @@ func TestCheck(t *testing.T) {
 	run.Assume("fakesql compares strings bytewise (binary collation, no PAD SPACE) and serialises writers with one engine-wide lock (READ COMMITTED for plain SELECTs)")
 	run.Assume("filters are restricted to values the unbatched path accepts (no stringly numbers, no sub-microsecond times)")
 	pinned(run)
-	n := run.N(3000, 1000000)
+	n := run.N(3000, 600000)
 	run.Each(n, 8, func(i int) { runRound(run, i) })
 	if _, only := run.Only(); !only && run.Counter("rounds_combined") == 0 {
 		run.Inconclusive("no round combined calls into fewer SELECTs: batching was never observed")
